@@ -115,6 +115,7 @@ type TaintEngine struct {
 	UsedModels  map[string]int
 	callSites   map[*ssa.Function][]ssa.CallInstruction
 	funcFields  map[FieldID][]ssa.Value
+	extTargets  map[*ssa.Parameter]map[int]*types.Func // per function-typed parameter: call-site index -> bound library method
 }
 
 func NewTaintEngine(p *Prog) *TaintEngine {
@@ -172,6 +173,11 @@ func NewTaintEngine(p *Prog) *TaintEngine {
 		"hash.Hash.Write":     {},
 	} {
 		t.Models[k] = m
+	}
+	// pure or copying helpers: they neither write, retain nor return an alias of a slice argument
+	for _, k := range []string{"bytes.Clone", "slices.Clone", "strings.Clone", "slices.Contains", "slices.Index", "slices.Equal", "slices.Compare",
+		"bytes.Equal", "bytes.Compare", "bytes.Contains", "bytes.Index", "bytes.IndexByte", "bytes.HasPrefix", "bytes.HasSuffix", "bytes.Count", "slices.Concat", "bytes.Join", "bytes.Repeat"} {
+		t.ReadOnly[k] = true
 	}
 	return t
 }
@@ -822,6 +828,13 @@ func (s *fnState) call(ci ssa.CallInstruction) bool {
 		if targets, shift, ok := s.t.paramFuncTargets(s.fn, pa); ok {
 			ch := false
 			for i, tg := range targets {
+				if tg == nil {
+					// bound method value of a library / interface method (aead.Open): the model of that method applies
+					if s.external(in, s.t.extTargets[pa][i], cc.Args, result) {
+						ch = true
+					}
+					continue
+				}
 				args := cc.Args
 				if shift[i] {
 					// bound method: receiver is the closure's binding, unknown here
@@ -853,7 +866,6 @@ func (s *fnState) call(ci ssa.CallInstruction) bool {
 	}
 	// external / interface
 	obj := calleeObj(ci)
-	key := extKey(obj)
 	args := cc.Args
 	if obj != nil && !cc.IsInvoke() {
 		if sig, ok := obj.Type().(*types.Signature); ok && sig.Recv() != nil && len(args) > 0 {
@@ -861,6 +873,14 @@ func (s *fnState) call(ci ssa.CallInstruction) bool {
 			// receiver taint flows to results for methods on tracked values (e.g. buf.Bytes())
 		}
 	}
+	return s.external(in, obj, args, result)
+}
+
+// external applies the library model (or records an unmodelled call) for a
+// call of the external / interface method obj with the given non-receiver
+// arguments.
+func (s *fnState) external(in ssa.Instruction, obj *types.Func, args []ssa.Value, result ssa.Value) bool {
+	key := extKey(obj)
 	if s.t.PoolRelease && key != "sync.Pool.Put" {
 		if _, modelled := s.t.Models[key]; !modelled || key == "" {
 			k := key
@@ -1040,12 +1060,29 @@ func (t *TaintEngine) paramFuncTargets(fn *ssa.Function, pa *ssa.Parameter) (tar
 	if idx < 0 || len(sites) == 0 || isExportedFunc(fn) {
 		return nil, nil, false
 	}
+	ext := map[int]*types.Func{}
+	defer func() {
+		if ok {
+			if t.extTargets == nil {
+				t.extTargets = map[*ssa.Parameter]map[int]*types.Func{}
+			}
+			t.extTargets[pa] = ext
+		}
+	}()
 	for _, cs := range sites {
 		args := cs.Common().Args
 		if idx >= len(args) {
 			return nil, nil, false
 		}
-		switch v := args[idx].(type) {
+		av := args[idx]
+		for {
+			if ct, isCT := av.(*ssa.ChangeType); isCT { // conversion to a named func type
+				av = ct.X
+				continue
+			}
+			break
+		}
+		switch v := av.(type) {
 		case *ssa.Function:
 			targets, bound = append(targets, origin(v)), append(bound, false)
 		case *ssa.MakeClosure:
@@ -1056,9 +1093,15 @@ func (t *TaintEngine) paramFuncTargets(fn *ssa.Function, pa *ssa.Parameter) (tar
 			if t.P.funcSet[origin(f)] {
 				targets, bound = append(targets, origin(f)), append(bound, false)
 			} else if strings.Contains(f.Synthetic, "bound method") && f.Object() != nil {
-				m := t.P.SSA.FuncValue(f.Object().(*types.Func))
+				mobj := f.Object().(*types.Func)
+				m := t.P.SSA.FuncValue(mobj)
 				if m == nil || !t.P.funcSet[origin(m)] {
-					return nil, nil, false
+					if mobj.Pkg() != nil && strings.HasPrefix(mobj.Pkg().Path(), t.P.ModPath) {
+						return nil, nil, false // a module interface method: implementations unknown here
+					}
+					ext[len(targets)] = mobj
+					targets, bound = append(targets, nil), append(bound, true)
+					continue
 				}
 				targets, bound = append(targets, origin(m)), append(bound, true)
 			} else {
